@@ -305,10 +305,31 @@ func (s *seqRunner) apply(op string) OpResult {
 			} else {
 				sort.Ints(ks)
 			}
+			if lc.Kind == "bulkreload" {
+				// how stale keys are batched into BulkReload calls is not specified: compare key by key
+				for i, k := range ks {
+					o := []int(nil)
+					if i < len(olds) {
+						o = olds[i : i+1]
+					}
+					got = append(got, expLoad{lc.Kind, []int{k}, o}.String())
+				}
+				continue
+			}
 			got = append(got, expLoad{lc.Kind, ks, olds}.String())
 		}
 		var want []string
 		for _, l := range ex.loads {
+			if l.kind == "bulkreload" {
+				for i, k := range l.keys {
+					o := []int(nil)
+					if i < len(l.olds) {
+						o = l.olds[i : i+1]
+					}
+					want = append(want, expLoad{l.kind, []int{k}, o}.String())
+				}
+				continue
+			}
 			want = append(want, l.String())
 		}
 		sort.Strings(got)
